@@ -37,6 +37,26 @@ fn body(ctx: &Ctx) -> (Summary, Meta) {
     for a in axes.iter().filter(|a| a.n() >= 3) {
         jobs.push(SplineJob { axis: a.clone(), spec: nimc::subj::BcSpec::Periodic, den: 8, f32_too: false, xscale: 1.0, nearly_closed: true });
     }
+    // long graded axes (intervals growing / shrinking geometrically over 70 - 130 knots; knots are
+    // the rounded partial sums): only the boundary-independent statements are judged
+    for (r, n) in [(2.0f64, 70usize), (2.0, 100), (4.0, 70), (1.5, 130), (1.25, 100)] {
+        for shrinking in [false, true] {
+            let h: Vec<f64> = (0..n - 1).map(|i| r.powi(i as i32)).collect();
+            let mut x = vec![0.0];
+            for hi in &h {
+                x.push(x[x.len() - 1] + hi);
+            }
+            if shrinking {
+                // the mirror image: intervals shrink towards the right end (at 0)
+                x = x.iter().rev().map(|v| -v).collect();
+            }
+            assert!(x.windows(2).all(|w| w[0] < w[1]));
+            let a = nimc::alpha::Axis::new(format!("graded[r={r},n={n},{}]", if shrinking { "shrinking" } else { "growing" }), x);
+            for spec in [nimc::subj::BcSpec::Periodic, nimc::subj::BcSpec::TopNotAKnot, nimc::subj::BcSpec::TopNatural] {
+                jobs.push(SplineJob { axis: a.clone(), spec, den: 8, f32_too: false, xscale: 1.0, nearly_closed: false });
+            }
+        }
+    }
     let want = Want {
         structural: true,
         ends: false,
